@@ -37,6 +37,8 @@ def run(ctx, repo):
     ctx.call(R6B.r_generators_fifo, repo)
     XL.compose_identity(ctx, repo)
     XL.construct_protocol(ctx, repo)
+    ctx.call(R6B.r_composer_errors, repo)
+    ctx.call(R6B.r_deep_iff_setstate, repo)
 
 
 if __name__ == '__main__':
